@@ -36,6 +36,9 @@ def states(tier, seed):
         if pf == "camber" and nx < 3:
             continue
         st.append(dict(part="aero", pf=pf, nx=nx, ny=ny, alpha=al, beta=be, rot=rot, two=two, fam=fam))
+        if nx == 3 and ny == 5 and pf in ("swept", "twdi"):
+            # the compressible (Prandtl-Glauert) solution path, positive and negative sideslip in each member of the pair
+            st.append(dict(part="aero", pf=pf, nx=nx, ny=ny, alpha=al, beta=be, rot=rot, two=two, comp=0.6, fam=fam))
     # (a2) struct alone
     for model, pf, ny, relief, pm in itertools.product(["tube", "wingbox"], ["swept", "twdi"], nys, [False, True], ["none", "left_inboard", "right_outboard", "both"]):
         st.append(dict(part="struct", model=model, pf=pf, ny=ny, relief=relief, pm=pm, fam=fam))
@@ -117,14 +120,16 @@ def part_aero(s):
         fl = dict(v=60.0, alpha=s["alpha"], beta=beta, rho=1.1, cg=list(cg_))
         if om__ is not None:
             fl["omega"] = list(om__)
-        p = builders.build_aero(surfs, fl, rotational=om__ is not None)
+        if s.get("comp"):
+            fl["Mach_number"] = s["comp"]
+        p = builders.build_aero(surfs, fl, rotational=om__ is not None, compressible=bool(s.get("comp")))
         p.run_model()
         return p
 
     p1 = run(ms, s["beta"], cg, om_)
     p2 = run([gen.mirror_mesh(m) for m in ms], -s["beta"], cg * POLAR, None if om_ is None else om_ * AXIAL)
     viol, val = [], 0
-    wh = dict(part="aero", rot=s["rot"], nsurf=len(ms))
+    wh = dict(part="aero", rot=s["rot"], nsurf=len(ms), comp=bool(s.get("comp")))
     Fsc = max(max(np.abs(p1["ap.aero_states.s%d_sec_forces" % k]).max() for k in range(len(ms))), gen.force_floor(1.1, 60.0, ms))
     for k in range(len(ms)):
         val += 1
